@@ -19,3 +19,12 @@ theories/Alg.vos theories/Alg.vok theories/Alg.required_vos: theories/Alg.v theo
 theories/QuatAlg.vo theories/QuatAlg.glob theories/QuatAlg.v.beautified theories/QuatAlg.required_vo: theories/QuatAlg.v 
 theories/QuatAlg.vio: theories/QuatAlg.v 
 theories/QuatAlg.vos theories/QuatAlg.vok theories/QuatAlg.required_vos: theories/QuatAlg.v 
+theories/RotAlg.vo theories/RotAlg.glob theories/RotAlg.v.beautified theories/RotAlg.required_vo: theories/RotAlg.v 
+theories/RotAlg.vio: theories/RotAlg.v 
+theories/RotAlg.vos theories/RotAlg.vok theories/RotAlg.required_vos: theories/RotAlg.v 
+theories/ProjAlg.vo theories/ProjAlg.glob theories/ProjAlg.v.beautified theories/ProjAlg.required_vo: theories/ProjAlg.v 
+theories/ProjAlg.vio: theories/ProjAlg.v 
+theories/ProjAlg.vos theories/ProjAlg.vok theories/ProjAlg.required_vos: theories/ProjAlg.v 
+theories/AlgR.vo theories/AlgR.glob theories/AlgR.v.beautified theories/AlgR.required_vo: theories/AlgR.v theories/Base.vo
+theories/AlgR.vio: theories/AlgR.v theories/Base.vio
+theories/AlgR.vos theories/AlgR.vok theories/AlgR.required_vos: theories/AlgR.v theories/Base.vos
